@@ -297,9 +297,9 @@ def run(ck):
     try:
         for qi in range(nq):
             t = C.gen_tree(ck.rng, depth=ck.rng.randrange(1, 4), p_child=0.6)
-            C.assign_pages(ck.rng, t, p_owner=0.3)
+            C.assign_pages(ck.rng, t, p_owner=0.8 if qi % 4 == 0 else 0.3)
             data = C.build(ck.rng, t)
-            strategy = ["queue", "executor"][qi % 2]
+            strategy = ["queue", "executor"][(qi // 4) % 2 if qi % 4 == 0 else qi % 2]
             workers = ck.rng.choice([1, 2, 3, 6])
             local = CopcReader(io.BytesIO(data))
             captured = []
@@ -317,6 +317,13 @@ def run(ck):
             want = local.query(bounds=box, level=level)
             real_ranges = [c for c in captured if c[1] > 0]
             fails = sorted({c[0] for c in real_ranges if ck.rng.random() < 0.3}) if qi % 3 == 2 else []
+            page_fail = None
+            subpages = sorted(loc[0] for pid, loc in t.page_loc.items() if pid != 0 and loc[1] > 0)
+            if qi % 4 == 0 and subpages and box is None and level is None:
+                # the request for a hierarchy page (not for a chunk) fails: the query cannot know the subtree, so it must raise, not return less
+                page_fail = ck.rng.choice(subpages)
+                fails = [page_fail]
+                ck.count("failing_hierarchy_page_request")
             inp = {"kind": "http_query", "strategy": strategy, "workers": workers, "ranges": len(captured), "fails": fails,
                    "nodes": len(t.nodes), "box": box is not None, "level": None if level is None else "0,3,1"}
             ck.case(("c16q", qi, strategy, workers, tuple(fails), hash(data)), nontrivial=len(real_ranges) > 1)
@@ -350,7 +357,11 @@ def run(ck):
                 still = [th for th in left if th.is_alive()]
                 ck.fail(f"{len(left)} thread(s) started by the query are alive when it {'raises' if exc else 'returns'}"
                         + (f" ({len(still)} still alive 50 ms later)" if still else ""), inp)
-            if fails and real_ranges and any(f in [c[0] for c in real_ranges] for f in fails):
+            if page_fail is not None:
+                if exc is None:
+                    ck.fail(f"the request for the hierarchy page at byte {page_fail} failed; the query returned {len(got)} points (the local file gives {len(want)}) "
+                            f"instead of raising", dict(inp, failing_page=page_fail))
+            elif fails and real_ranges and any(f in [c[0] for c in real_ranges] for f in fails):
                 if exc is None:
                     ck.fail("a failed range request did not surface as an exception", inp)
             elif exc is not None:
